@@ -163,6 +163,11 @@ def run_typing(case, ctx, rep, pytrs):
                 d.parse_tracts(**CF.tract_parse_kwargs(kw))
                 judge_description(d, d.tracts, case, ctx, 'after parse_tracts')
                 judge_sharing(d, d.tracts, case, ctx, 'after parse_tracts')
+                d.parse_tracts()
+                d.parse_tracts(**CF.tract_parse_kwargs(kw))
+                judge_description(d, d.tracts, case, ctx,
+                                  'after 3 x parse_tracts')
+                judge_sharing(d, d.tracts, case, ctx, 'after 3 x parse_tracts')
                 # Standalone Tract.
                 t = pytrs.Tract(text, config=cfg, parse_qq=True)
                 why = holder_problem(t, 'Tract')
@@ -216,15 +221,30 @@ def gen_trigger_case(rng):
     mode = rng.choice(MODES)
     if mode == 'FORCED':
         mode = base['layout']
+    fallback = None
+    r = rng.random()
+    if r < 0.12 and base['layout'] in ('TRS_desc', 'S_desc_TR'):
+        # every colon removed + colon required: the chunk falls back to
+        # copy_all; the wording must still be flagged.
+        out = out.replace(':', '')
+        mode = rng.choice(['sec_colon_required', 'sec_colon_required,segment',
+                           'sec_colon_required,sec_within'])
+        fallback = 'colon-required'
+    elif r < 0.2:
+        # a forced layout that does not fit the text
+        others = [x for x in G.LAYOUTS if x != base['layout']]
+        mode = rng.choice(others)
+        fallback = 'misfit-layout'
     return {'text': out, 'base': text, 'layout': base['layout'],
-            'inserted': inserted, 'mode': mode}
+            'inserted': inserted, 'mode': mode, 'fallback': fallback}
 
 
 def run_trigger(case, ctx, rep, pytrs, rec):
     rep.set_case(case)
     rec.reset()
     ctx.case([case['text'], case['mode']], True,
-             shape=f"trigger|{case['mode'] or 'default'}|{case['layout']}",
+             shape=f"trigger|{case['mode'] or 'default'}|{case['layout']}"
+                   f"{'|' + case['fallback'] if case.get('fallback') else ''}",
              sample={'text': short(case['text'], 200), 'mode': case['mode'],
                      'inserted': [(i['kind'], i['phrase']) for i in case['inserted']]})
     with ctx.guard(case):
